@@ -88,11 +88,15 @@ def contract_check(ctx, rep, mgr, sspec, tspec, excluded, exists, pats, inp, cls
     else:
         xs = [[ctx.rng.randrange(n) for n in n_opts] for _ in range(limit)]
     extras = [[-3] * len(n_opts), [99] * len(n_opts), [0] * (len(n_opts) + 2), [1] * (len(n_opts) + 1)]
-    try:
-        alldv = mgr.get_all_design_vectors()
-    except Exception as e:
-        dis('all-design-vectors-exc', {}, {'exc': repr(e)[:200]})
-        alldv = None
+    alldv = None
+    # a lazy / pattern encoder lists its design vectors by decoding the whole declared space: only for small spaces
+    if n_decl <= 600 or isinstance(mgr.encoder, EagerEncoder):
+        try:
+            alldv = mgr.get_all_design_vectors()
+        except Exception as e:
+            dis('all-design-vectors-exc', {}, {'exc': repr(e)[:200]})
+    else:
+        rep.count('all-design-vectors:skipped-large')
     tables = None
     enc = mgr.encoder
     if eager_model and isinstance(enc, EagerEncoder):
@@ -106,7 +110,9 @@ def contract_check(ctx, rep, mgr, sspec, tspec, excluded, exists, pats, inp, cls
     used_values = [set() for _ in n_opts]
     for pi, (p, ex) in enumerate(zip(pats, exists)):
         je = c09.jexist(ns, nt, ex)
-        r = drv.ask('matrices', s=js, e=je)
+        # the brute-force specification enumerates every matrix below the per-pair limits: beyond ~14 cells the
+        # algorithmic enumeration (proved equal to it, C09.enumLib_eq_enumSpec) is used instead
+        r = drv.ask('matrices', s=js, e=je, lib_only=ns * nt > 14)
         ref = {tuple(v for row in M for v in row) for M in r['spec']}
         if not ref:
             rep.count('pattern:no-valid-matrix')
@@ -116,6 +122,10 @@ def contract_check(ctx, rep, mgr, sspec, tspec, excluded, exists, pats, inp, cls
         queries, impl_out = [], []
         for xi_, x in enumerate(xs + extras):
             is_extra = xi_ >= len(xs)
+            if xi_ % 16 == 15 and ctx.out_of_time():
+                rep.count('pattern:truncated-by-budget')
+                full = False
+                break
             try:
                 xi, act, M = mgr.get_matrix(list(x), existence=p)
             except Exception as e:
